@@ -65,6 +65,11 @@ def run(ctx):
                                     MaxLen=600, MaxOps=(3 if ctx.tier == "thorough" else 4))))
     # implementation-shaped lane-template model (integers only): holds under the fixed sizing rule ...
     jobs.append(dict(module="KdfLanes", name="KdfLanes_new", constants=dict(Rule='"new"'), invariants=("TemplateExact", "CounterInside"), workers=1, timeout=300))
+    # behaviour beyond the listed property: the ZA-prefixed hash object of package sm2 (MC_C01za); an OBSERVATION, never a verdict of C01
+    za_out = os.path.join(ctx.scratch, "c01za.ndjson")
+    jobs.append(dict(module="MC_C01za", name="MC_C01za", workers=3, timeout=1200, invariants=("TypeOK",),
+                     constants=dict(Seed=ctx.seed, UidLens=S([0, 16] if ctx.tier == "quick" else [0, 1, 16, 200]), N1=S([0, 1, 64]), N2=S([0, 63] if ctx.tier == "quick" else [0, 1, 63, 64]),
+                                    N3=S([1, 55] if ctx.tier == "quick" else [0, 1, 55, 56, 64]), OutFile=core.tla_str(za_out))))
     ctx.tlc_many(jobs, parallel=5)
     # ... and TLC must refute it under the pre-fix rule (documents D1; a model that cannot fail proves nothing)
     old = ctx.tlc("KdfLanes", dict(Rule='"old"'), invariants=("TemplateExact", "CounterInside"), workers=1, timeout=300, name="KdfLanes_old", allow_fail=True)
@@ -75,6 +80,12 @@ def run(ctx):
     core.cat_files(outs_h, out_h)
     core.cat_files(outs_k, out_k)
     allt = core.cat_files([out_h, out_k], os.path.join(ctx.scratch, "c01.ndjson"))
+    saved = (ctx.fails, ctx.replayed, ctx.steps, dict(ctx.per_cfg))
+    ctx.fails = []
+    obs = ctx.replay(za_out, cfgs.K_SM3[0]) if os.path.exists(za_out) else []
+    ctx.fails, ctx.replayed, ctx.steps, ctx.per_cfg = saved
+    ctx.extra["sm2_hash_object_observation"] = {"cases": core.count_lines(za_out) if os.path.exists(za_out) else 0, "deviations": len(obs), "first": (core._shorten(obs[0]) if obs else None),
+                                                "note": "sm2.NewHash* (ZA-prefixed running hash, Reset returns to 'ZA absorbed', digest = e of GB/T 32918.2) against MC_C01za; outside the wording of C01, never a verdict"}
     ctx.replay_all(allt, cfgs.K_SM3)
     ctx.binding_guard(out_h, cfgs.K_SM3[0])
     ctx.binding_guard(out_k, cfgs.K_SM3[0])
